@@ -45,6 +45,7 @@ structure Cfg where
   utf8 : Bool            -- setXCutTextUTF8 installed (extended clipboard available)
   view : Bool            -- clients are view-only
   wait : Nat             -- screen->maxClientWait in ms (0 = use rfbMaxClientWait)
+  sdh : Bool := false    -- the application installed a setDesktopSizeHook that is counted
   deriving Repr
 
 inductive Phase where
@@ -73,8 +74,11 @@ structure Res where
   alloc : Nat := 0           -- largest allocation request made on behalf of this message
   allocAlt : Nat := 0        -- upper variant when the size also depends on the file system (≥ alloc)
   wrote : Bool := false      -- the handler wrote to the client
+  wroteMaybe : Bool := false -- whether it wrote depends on the file system / path translation
   updWrite : Bool := false   -- the message makes the next update non-empty (non-incremental request)
   updReq : Bool := false     -- the message is a FramebufferUpdateRequest
+  cb : Nat := 0              -- application callbacks invoked (keyboard, cut text, text chat, single
+                             -- window, server input, xvp, desktop size; pointer events are C06's)
   conn : Conn
   deriving Repr
 
@@ -148,23 +152,29 @@ def validBpp (b : Nat) : Bool := b == 8 || b == 16 || b == 24 || b == 32
 inductive XlateResult where
   | rejected                                   -- rfbCloseClient
   | accepted (fmt : PixFmt) (table : Nat) (wroteColourMap : Bool)
-  deriving Repr
+  deriving DecidableEq, Repr
 
 def tableBytes (entries outBpp : Nat) : Nat :=
   if outBpp = 24 then entries * 3 + 1 else entries * (outBpp / 8)
 
-/-- `rfbSetTranslateFunction` for a client format `f` on a screen with `srv` (fixed code) -/
+/-- the checks of `rfbSetTranslateFunction` that end in `rfbCloseClient` (fixed code):
+bits per pixel 8/16/24/32; a colour-map client must be 8 bpp; every true-colour channel fits -/
+def formatOk (f : PixFmt) : Bool :=
+  validBpp f.bpp && (f.tc || f.bpp == 8) &&
+  (!f.tc || (channelFits f.rmax f.rs f.bpp && channelFits f.gmax f.gs f.bpp && channelFits f.bmax f.bs f.bpp))
+
+/-- a colour-map client is switched to BGR233 (`rfbSetClientColourMapBGR233`) -/
+def effFormat (f : PixFmt) : PixFmt := if f.tc then f else bgr233Format
+
+/-- size of the lookup table(s) `rfbSetTranslateFunction` allocates -/
+def tableSize (srv f' : PixFmt) : Nat :=
+  if pfEq f' srv then 0
+  else if srv.bpp ≤ 16 then tableBytes (2 ^ srv.bpp) f'.bpp
+  else tableBytes (srv.rmax + srv.gmax + srv.bmax + 3) f'.bpp
+
+/-- `rfbSetTranslateFunction` for a client format `f` on a screen with format `srv` (fixed code) -/
 def setTranslate (srv f : PixFmt) : XlateResult :=
-  if !validBpp f.bpp then .rejected
-  else if !f.tc && f.bpp != 8 then .rejected
-  else if f.tc && !(channelFits f.rmax f.rs f.bpp && channelFits f.gmax f.gs f.bpp &&
-                    channelFits f.bmax f.bs f.bpp) then .rejected
-  else
-    let f' := if f.tc then f else bgr233Format
-    let wroteCM := !f.tc
-    if pfEq f' srv then .accepted f' 0 wroteCM
-    else if srv.bpp ≤ 16 then .accepted f' (tableBytes (2 ^ srv.bpp) f'.bpp) wroteCM
-    else .accepted f' (tableBytes (srv.rmax + srv.gmax + srv.bmax + 3) f'.bpp) wroteCM
+  if formatOk f then .accepted (effFormat f) (tableSize srv (effFormat f)) (!f.tc) else .rejected
 
 /-! ## rectangle of a FramebufferUpdateRequest: `rectSwapIfLEAndClip` for an unscaled client
 
@@ -210,26 +220,29 @@ def hFixColourMap (c : Conn) (inp : List UInt8) : Res :=
   | _ :: _ :: _ :: _ :: _ :: _ => mkClosed c
   | _ => mkStarved c
 
+/-- pseudo-encoding of the harness application's protocol extension (its enable callback is counted) -/
+def appPseudoEncoding : Nat := 0x43303400
+
 /-- the loop `for (i = 0; i < nEncodings; i++) rfbReadExact(cl, &enc, 4)`: stops at the first
 failed read.  Returns the remaining input (`none` if the input ran out), the connection flags the
-encodings switched on and whether the server answered on the way. -/
-def encLoop (cfg : Cfg) : Nat → List UInt8 → Conn → Bool → (Option (List UInt8) × Conn × Bool)
-  | 0, inp, c, w => (some inp, c, w)
-  | n + 1, a :: b :: cc :: d :: rest, c, w =>
+encodings switched on, whether the server answered on the way and the extension callbacks made. -/
+def encLoop (cfg : Cfg) : Nat → List UInt8 → Conn → Bool → Nat → (Option (List UInt8) × Conn × Bool × Nat)
+  | 0, inp, c, w, k => (some inp, c, w, k)
+  | n + 1, a :: b :: cc :: d :: rest, c, w, k =>
     let enc := be32 a b cc d
     let c1 := if enc = rfbEncodingExtendedClipboard ∧ cfg.utf8 then { c with extClip := true } else c
     let c2 := if enc = rfbEncodingNewFBSize ∨ enc = rfbEncodingExtDesktopSize then { c1 with useNewFB := true } else c1
     let w1 := w || (enc = rfbEncodingXvp ∧ cfg.xvp) || (enc = rfbEncodingExtendedClipboard ∧ cfg.utf8)
-    encLoop cfg n rest c2 w1
-  | _ + 1, _, c, w => (none, c, w)
+    encLoop cfg n rest c2 w1 (if enc = appPseudoEncoding then k + 1 else k)
+  | _ + 1, _, c, w, k => (none, c, w, k)
 
 def hSetEncodings (cfg : Cfg) (c : Conn) (inp : List UInt8) : Res :=
   match inp with
   | _ :: n1 :: n0 :: rest =>
     -- SetEncodings resets useNewFBSize (not enableExtendedClipboard)
-    match encLoop cfg (be16 n1 n0) rest { c with useNewFB := false } false with
-    | (some rest', c', w) => mkCont c' rest' 0 w
-    | (none, _, w) => mkStarved c 0 w
+    match encLoop cfg (be16 n1 n0) rest { c with useNewFB := false } false 0 with
+    | (some rest', c', w, k) => { mkCont c' rest' 0 w with cb := k }
+    | (none, _, w, k) => { mkStarved c 0 w with cb := k }
   | _ => mkStarved c
 
 def hUpdateRequest (cfg : Cfg) (c : Conn) (inp : List UInt8) : Res :=
@@ -242,9 +255,9 @@ def hUpdateRequest (cfg : Cfg) (c : Conn) (inp : List UInt8) : Res :=
     { mkCont c rest with updWrite := incr == 0 && nonEmpty, updReq := true }
   | _ => mkStarved c
 
-def hFixed (n : Nat) (c : Conn) (inp : List UInt8) : Res :=
+def hFixed (n : Nat) (c : Conn) (inp : List UInt8) (cb : Nat := 0) : Res :=
   match readN n inp with
-  | some (_, rest) => mkCont c rest
+  | some (_, rest) => { mkCont c rest with cb := cb }
   | none => mkStarved c
 
 /-- `rfbProcessFileTransferReadBuffer`: the guard, the allocation and the read -/
@@ -264,34 +277,36 @@ def ftReadBuffer (length : Nat) (inp : List UInt8) : FtBuf :=
 /-- `strlen(timespec) + 2` of the realloc in the rfbFileTransferRequest branch ("%m/%d/%Y %H:%M") -/
 def ftTimespecExtra : Nat := 18
 
+/-- `rfbProcessFileTransfer` (file transfer permitted) -/
+def ftBody (c : Conn) (ct param size length : Nat) (rest : List UInt8) : Res :=
+  let needsBuf := (ct = rfbDirContentRequest ∧ param = rfbRDirContent) ∨
+    ct = rfbFileTransferRequest ∨ ct = rfbFileTransferOffer ∨ ct = rfbFilePacket ∨ ct = rfbCommand
+  if needsBuf then
+    match ftReadBuffer length rest with
+    | .closed => mkClosed c
+    | .empty => mkCont c rest
+    | .starved a => mkStarved c a
+    | .got a rest' =>
+      -- whether a reply is written depends on rfbFilenameTranslate2UNIX / the file system
+      if ct = rfbFileTransferOffer then
+        match readN 4 rest' with      -- sizeHtmp
+        | some (_, rest'') => { mkCont c rest'' a with wroteMaybe := true }
+        | none => mkStarved c a
+      else if ct = rfbFileTransferRequest then
+        { mkCont c rest' a with allocAlt := length + ftTimespecExtra, wroteMaybe := true }
+      else if ct = rfbFilePacket then mkCont c rest' a false
+      else { mkCont c rest' a with wroteMaybe := true }
+  else if ct = rfbDirContentRequest ∧ param = rfbRDrivesList then mkCont c rest 0 true
+  else if ct = rfbAbortFileTransfer then mkCont c rest 0 true
+  else if ct = rfbFileHeader then
+    if size = 4294967295 then mkCont c rest else { mkCont c rest with wroteMaybe := true }
+  else mkCont c rest
+
 def hFileTransfer (cfg : Cfg) (c : Conn) (inp : List UInt8) : Res :=
   match inp with
   | ctype :: param :: _ :: s3 :: s2 :: s1 :: s0 :: l3 :: l2 :: l1 :: l0 :: rest =>
     if !cfg.ft then mkClosed c           -- FILEXFER_ALLOWED_OR_CLOSE_AND_RETURN
-    else
-      let size := be32 s3 s2 s1 s0
-      let length := be32 l3 l2 l1 l0
-      let ct := ctype.toNat
-      let needsBuf := (ct = rfbDirContentRequest ∧ param.toNat = rfbRDirContent) ∨
-        ct = rfbFileTransferRequest ∨ ct = rfbFileTransferOffer ∨ ct = rfbFilePacket ∨ ct = rfbCommand
-      if needsBuf then
-        match ftReadBuffer length rest with
-        | .closed => mkClosed c
-        | .empty => mkCont c rest
-        | .starved a => mkStarved c a
-        | .got a rest' =>
-          if ct = rfbFileTransferOffer then
-            match readN 4 rest' with      -- sizeHtmp
-            | some (_, rest'') => { mkCont c rest'' a true with allocAlt := a }
-            | none => mkStarved c a
-          else if ct = rfbFileTransferRequest then
-            { mkCont c rest' a true with allocAlt := length + ftTimespecExtra }
-          else if ct = rfbFilePacket then mkCont c rest' a false
-          else mkCont c rest' a true
-      else if ct = rfbDirContentRequest ∧ param.toNat = rfbRDrivesList then mkCont c rest 0 true
-      else if ct = rfbAbortFileTransfer then mkCont c rest 0 true
-      else if ct = rfbFileHeader then mkCont c rest 0 (size != 4294967295)
-      else mkCont c rest
+    else ftBody c ctype.toNat param.toNat (be32 s3 s2 s1 s0) (be32 l3 l2 l1 l0) rest
   | _ => mkStarved c
 
 def hSetScale (cfg : Cfg) (c : Conn) (inp : List UInt8) : Res :=
@@ -315,10 +330,10 @@ def hTextChat (c : Conn) (inp : List UInt8) : Res :=
   | _ :: _ :: _ :: l3 :: l2 :: l1 :: l0 :: rest =>
     let length := be32 l3 l2 l1 l0
     if length = rfbTextChatOpen ∨ length = rfbTextChatClose ∨ length = rfbTextChatFinished then
-      mkCont c rest
+      { mkCont c rest with cb := 1 }
     else if 0 < length ∧ length < rfbTextMaxSize then
       match readN length rest with
-      | some (_, rest') => mkCont c rest' length
+      | some (_, rest') => { mkCont c rest' length with cb := 1 }
       | none => mkStarved c length
     else mkClosed c
   | _ => mkStarved c
@@ -328,51 +343,60 @@ def flagsOf : List UInt8 → Option Nat
   | a :: b :: c :: d :: _ => some (be32 a b c d)
   | _ => none
 
-def hCutText (c : Conn) (inp : List UInt8) : Res :=
+/-- `calloc(length ? length : 1, 1)` -/
+def cutAlloc (length : Nat) : Nat := if length = 0 then 1 else length
+
+/-- the extended-clipboard branch once the `length` bytes (starting with the flags word) are read -/
+def extClipAction (c : Conn) (flags length a : Nat) (rest' : List UInt8) : Res :=
+  if flags.testBit 24 then                           -- Caps
+    let formats := popcount16 flags
+    if formats = 0 then mkCont { c with extClip := false } rest' a
+    else if length ≠ 4 + formats * 4 then mkClosed c a
+    else if flags.testBit 0 then mkCont c rest' a
+    else mkCont { c with extClip := false } rest' a
+  else if flags.testBit 25 then mkCont c rest' a      -- Request (server has no data here)
+  else if flags.testBit 26 then mkCont c rest' a      -- Peek
+  else if flags.testBit 28 then                       -- Provide: depends on the zlib stream
+    if flags % 65536 = 0 then mkCont c rest' a        -- no format bit: the loop body never runs
+    else mkUnknown c (max a extClipMax)
+  else mkCont c rest' a
+
+/-- ClientCutText after the 8-byte header: `ext` = extended format (negative length), `length` =
+the (negated) length field -/
+def cutBody (c : Conn) (ext : Bool) (length : Nat) (rest : List UInt8) (view : Bool := false) : Res :=
+  if length > cutTextMax then mkClosed c
+  else match readN length rest with
+    | none => mkStarved c (cutAlloc length)
+    | some (str, rest') =>
+      if !ext then { mkCont c rest' (cutAlloc length) with cb := if view then 0 else 1 }
+      else match flagsOf str with
+        | none => mkClosed c (cutAlloc length)           -- length < 4
+        | some flags => extClipAction c flags length (cutAlloc length) rest'
+
+def hCutText (c : Conn) (inp : List UInt8) (view : Bool := false) : Res :=
   match inp with
   | _ :: _ :: _ :: l3 :: l2 :: l1 :: l0 :: rest =>
     let raw := be32 l3 l2 l1 l0
-    let ext := c.extClip && decide (raw ≥ 2147483648)
-    let length := if ext then (4294967296 - raw) % 4294967296 else raw
-    if length > cutTextMax then mkClosed c
-    else
-      let a := if length = 0 then 1 else length
-      match readN length rest with
-      | none => mkStarved c a
-      | some (str, rest') =>
-        if !ext then mkCont c rest' a
-        else match flagsOf str with
-          | none => mkClosed c a                               -- length < 4
-          | some flags =>
-            if flags.testBit 24 then                           -- Caps
-              let formats := popcount16 flags
-              if formats = 0 then mkCont { c with extClip := false } rest' a
-              else if length ≠ 4 + formats * 4 then mkClosed c a
-              else if flags.testBit 0 then mkCont c rest' a
-              else mkCont { c with extClip := false } rest' a
-            else if flags.testBit 25 then mkCont c rest' a      -- Request (server has no data here)
-            else if flags.testBit 26 then mkCont c rest' a      -- Peek
-            else if flags.testBit 28 then                       -- Provide: depends on the zlib stream
-              if flags % 65536 = 0 then mkCont c rest' a        -- no format bit: the loop body never runs
-              else mkUnknown c (max a extClipMax)
-            else mkCont c rest' a
+    -- a length with the top bit set means "extended format, -length bytes" once the extension is on
+    if c.extClip && decide (raw ≥ 2147483648) then cutBody c true ((4294967296 - raw) % 4294967296) rest view
+    else cutBody c false raw rest view
   | _ => mkStarved c
 
 def hXvp (cfg : Cfg) (c : Conn) (inp : List UInt8) : Res :=
   match inp with
   | _ :: version :: code :: rest =>
     let wrote := version.toNat != 1 || (cfg.xvp && code.toNat % 2 == 0)
-    mkCont c rest 0 wrote
+    { mkCont c rest 0 wrote with cb := if version.toNat = 1 ∧ cfg.xvp then 1 else 0 }
   | _ => mkStarved c
 
-def hSetDesktopSize (c : Conn) (inp : List UInt8) : Res :=
+def hSetDesktopSize (c : Conn) (inp : List UInt8) (hook : Bool := false) : Res :=
   match inp with
   | _ :: _ :: _ :: _ :: _ :: n :: _ :: rest =>
     if n.toNat = 0 then mkCont c rest
     else
       let a := n.toNat * sz_rfbExtDesktopScreen
       match readN a rest with
-      | some (_, rest') => mkCont c rest' a
+      | some (_, rest') => { mkCont c rest' a with cb := if hook then 1 else 0 }
       | none => mkStarved c a
   | _ => mkStarved c
 
@@ -385,7 +409,7 @@ def asShort (v : Nat) : Int := if v < 32768 then v else (v : Int) - 65536
 def tLengthError (c : Conn) (size : Nat) (rest : List UInt8) : Res :=
   if asShort size < 0 then mkCont c rest            -- calloc of a huge size fails, handler returns
   else match readN size rest with
-    | some (_, rest') => mkCont c rest' size true
+    | some (_, rest') => { mkCont c rest' size with wroteMaybe := true }
     | none => mkStarved c size
 
 def hTight (cfg : Cfg) (c : Conn) (t : Nat) (inp : List UInt8) : Res :=
@@ -396,7 +420,7 @@ def hTight (cfg : Cfg) (c : Conn) (t : Nat) (inp : List UInt8) : Res :=
       let size := be16 n1 n0
       if size = 0 ∨ size > pathMax - 1 then mkCont c rest
       else match readN size rest with
-        | some (_, rest') => mkCont c rest' 0 true
+        | some (_, rest') => { mkCont c rest' with wroteMaybe := true }
         | none => mkStarved c
     | _ => mkStarved c
   else if t = rfbFileDownloadRequest ∨ t = rfbFileUploadRequest then
@@ -405,7 +429,7 @@ def hTight (cfg : Cfg) (c : Conn) (t : Nat) (inp : List UInt8) : Res :=
       let size := be16 n1 n0
       if size = 0 ∨ size > pathMax - 1 then tLengthError c size rest
       else match readN size rest with
-        | some (_, rest') => mkCont c rest' 0 true
+        | some (_, rest') => { mkCont c rest' with wroteMaybe := true }
         | none => mkStarved c
     | _ => mkStarved c
   else if t = rfbFileUploadData then
@@ -415,10 +439,10 @@ def hTight (cfg : Cfg) (c : Conn) (t : Nat) (inp : List UInt8) : Res :=
       let comp := be16 c1 c0
       if real = 0 ∧ comp = 0 then
         match readN 4 rest with
-        | some (_, rest') => mkCont c rest' 0 true
+        | some (_, rest') => { mkCont c rest' with wroteMaybe := true }
         | none => mkStarved c
       else match readN comp rest with
-        | some (_, rest') => mkCont c rest' comp true
+        | some (_, rest') => { mkCont c rest' comp with wroteMaybe := true }
         | none => mkStarved c comp
     | _ => mkStarved c
   else if t = rfbFileDownloadCancel ∨ t = rfbFileUploadFailed then
@@ -436,7 +460,7 @@ def hTight (cfg : Cfg) (c : Conn) (t : Nat) (inp : List UInt8) : Res :=
       let len := be16 n1 n0
       if len ≥ pathMax - 1 then mkClosed c
       else match readN len rest with
-        | some (_, rest') => mkCont c rest' 0 true
+        | some (_, rest') => { mkCont c rest' with wroteMaybe := true }
         | none => mkStarved c
     | _ => mkStarved c
   else mkClosed c
@@ -446,24 +470,49 @@ def isTightType (t : Nat) : Bool :=
   t == rfbFileUploadData || t == rfbFileDownloadCancel || t == rfbFileUploadFailed ||
   t == rfbFileCreateDirRequest
 
+/-- the `switch (msg.type)` of `rfbProcessClientNormalMessage` (+ the extension dispatch in `default:`) -/
+inductive Kind where
+  | setPixelFormat | fixColourMap | setEncodings | updateRequest | key | pointer | cutText
+  | fileTransfer | scale | serverInput | setSW | textChat | xvp | desktopSize | tight | unknown
+  deriving DecidableEq, Repr
+
+def kindOf (c : Conn) (t : Nat) : Kind :=
+  if t = rfbSetPixelFormat then .setPixelFormat
+  else if t = rfbFixColourMapEntries then .fixColourMap
+  else if t = rfbSetEncodings then .setEncodings
+  else if t = rfbFramebufferUpdateRequest then .updateRequest
+  else if t = rfbKeyEvent then .key
+  else if t = rfbPointerEvent then .pointer
+  else if t = rfbClientCutText then .cutText
+  else if t = rfbFileTransfer then .fileTransfer
+  else if t = rfbSetScale ∨ t = rfbPalmVNCSetScaleFactor then .scale
+  else if t = rfbSetServerInput then .serverInput
+  else if t = rfbSetSW then .setSW
+  else if t = rfbTextChat then .textChat
+  else if t = rfbXvp then .xvp
+  else if t = rfbSetDesktopSize then .desktopSize
+  else if c.tightExt && isTightType t then .tight
+  else .unknown
+
 /-- `rfbProcessClientNormalMessage` after the type byte -/
 def handleNormal (cfg : Cfg) (c : Conn) (t : Nat) (inp : List UInt8) : Res :=
-  if t = rfbSetPixelFormat then hSetPixelFormat cfg c inp
-  else if t = rfbFixColourMapEntries then hFixColourMap c inp
-  else if t = rfbSetEncodings then hSetEncodings cfg c inp
-  else if t = rfbFramebufferUpdateRequest then hUpdateRequest cfg c inp
-  else if t = rfbKeyEvent then hFixed (sz_rfbKeyEventMsg - 1) c inp
-  else if t = rfbPointerEvent then hFixed (sz_rfbPointerEventMsg - 1) c inp
-  else if t = rfbClientCutText then hCutText c inp
-  else if t = rfbFileTransfer then hFileTransfer cfg c inp
-  else if t = rfbSetScale ∨ t = rfbPalmVNCSetScaleFactor then hSetScale cfg c inp
-  else if t = rfbSetServerInput then hFixed (sz_rfbSetServerInputMsg - 1) c inp
-  else if t = rfbSetSW then hFixed (sz_rfbSetSWMsg - 1) c inp
-  else if t = rfbTextChat then hTextChat c inp
-  else if t = rfbXvp then hXvp cfg c inp
-  else if t = rfbSetDesktopSize then hSetDesktopSize c inp
-  else if c.tightExt && isTightType t then hTight cfg c t inp
-  else mkClosed c                     -- unknown message type
+  match kindOf c t with
+  | .setPixelFormat => hSetPixelFormat cfg c inp
+  | .fixColourMap => hFixColourMap c inp
+  | .setEncodings => hSetEncodings cfg c inp
+  | .updateRequest => hUpdateRequest cfg c inp
+  | .key => hFixed (sz_rfbKeyEventMsg - 1) c inp (if cfg.view then 0 else 1)
+  | .pointer => hFixed (sz_rfbPointerEventMsg - 1) c inp
+  | .cutText => hCutText c inp cfg.view
+  | .fileTransfer => hFileTransfer cfg c inp
+  | .scale => hSetScale cfg c inp
+  | .serverInput => hFixed (sz_rfbSetServerInputMsg - 1) c inp 1
+  | .setSW => hFixed (sz_rfbSetSWMsg - 1) c inp 1
+  | .textChat => hTextChat c inp
+  | .xvp => hXvp cfg c inp
+  | .desktopSize => hSetDesktopSize c inp cfg.sdh
+  | .tight => hTight cfg c t inp
+  | .unknown => mkClosed c                     -- unknown message type
 
 /-! ## the phases before RFB_NORMAL -/
 
